@@ -5,10 +5,14 @@ from .. import vlib
 TRUSTED = [
     "Lean 4.33 kernel; axioms per theorem listed under coverage.axioms (subset of propext, Classical.choice, Quot.sound)",
     "translate/serialops.py (clang++-14 record layouts + token-level scan of serializeOp / operator== bodies -> Gen/SerialClasses.lean)",
-    "harness/serial.cpp, serial_codec.hpp, serial_objects.hpp + lib/vlib.py differ; model driver (compiled Lean)",
+    "harness/serial.cpp, serial_codec.hpp, serial_objects.hpp, serial_probes.hpp + lib/vlib.py differ; model driver (compiled Lean)",
     "modelled, not verified: the C++ has no bounds checks on UNPACK (short buffer / bool byte other than 0,1 is UB there, an error in the model); "
-    "memcpy packing of padded PODs; HAVE_DUNE branches; shared_ptr identity map (object level only: property mode); "
+    "memcpy packing of padded PODs; HAVE_DUNE branches; "
+    "pointer layer: the addresses make_shared returns are a parameter (assumed injective = distinct live objects), a buffer whose pointee "
+    "contains its own address (PACK cannot produce it), variant/set of pointer-holding types and two static types at one address are outside the model; "
+    "that the member types of the real classes are instances of the modelled shapes (ptr_member, map_member, Well: by inspection); "
     "that operator== and the public queries depend only on the listed members",
+    "knownUnserialized carries two reproduced defects of the unchanged tree (slave_mode, m_restart_network_pressures): their probes only count until the entries leave the list",
 ]
 
 
